@@ -31,7 +31,18 @@ var deniedCalls = map[string]string{
 
 var deniedOrder = []string{"http.send", "net.lookup_ip_addr", "opa.runtime", "rego.parse_module", "walk"}
 
-var c08Syntaxes = []string{"statement", "unify", "assign", "array-comprehension", "set-comprehension", "object-comprehension", "not", "every", "argument", "after-result"}
+var c08Syntaxes = []string{"statement", "unify", "assign", "array-comprehension", "set-comprehension", "object-comprehension", "not", "every", "argument", "after-result", "with-replacement", "with-replacement-in-comprehension"}
+
+// withHosts: for the `with <function> as <built-in>` form the denied built-in is never written as a call; it is
+// substituted for a harmless function of the same arity (the engine's function mocking)
+var withHosts = map[string][2]string{ // built-in -> (host function, a call of the host)
+	"http.send":          {"object.keys", `object.keys({"a": 1})`},
+	"net.lookup_ip_addr": {"upper", `upper("h")`},
+	"opa.runtime":        {"time.now_ns", `time.now_ns()`},
+	"rego.parse_module":  {"trim", `trim("a", "b")`},
+	"walk":               {"upper", `upper("h")`},
+	"count":              {"upper", `upper("h")`},
+}
 
 func c08Code(call, syntax string) string {
 	switch syntax {
@@ -55,6 +66,19 @@ func c08Code(call, syntax string) string {
 		return "$result = (count([" + call + "]) > 0)"
 	case "after-result":
 		return "$result = true\ntmpv := " + call
+	case "with-replacement", "with-replacement-in-comprehension":
+		name := call
+		if k := strings.Index(call, "("); k > 0 {
+			name = call[:k]
+		}
+		host, ok := withHosts[name]
+		if !ok {
+			host = withHosts["count"]
+		}
+		if syntax == "with-replacement" {
+			return "tmpv := " + host[1] + " with " + host[0] + " as " + name + "\n$result = true"
+		}
+		return "tmpv := [yy | yy := " + host[1] + " with " + host[0] + " as " + name + "]\n$result = true"
 	}
 	return call
 }
@@ -138,7 +162,7 @@ func decideC08(c c08Case) ev.Verdict {
 		return ev.Violation("c08-accepted:"+c.Builtin, "a profile calling %s (position %s, syntax %s) was accepted by CompileProfile\n%s", c.Builtin, c.Position, c.Syntax, profile)
 	}
 	msg := cc.Err.Error()
-	if !strings.Contains(msg, "unsafe built-in") || !strings.Contains(msg, c.Builtin) {
+	if !(strings.Contains(msg, "unsafe built-in") || strings.Contains(msg, "must not be unsafe")) || !strings.Contains(msg, c.Builtin) {
 		return ev.Verdict{Discard: true, Detail: fmt.Sprintf("rejected for another reason (%s, %s, %s): %s", c.Builtin, c.Position, c.Syntax, trunc(msg, 300)), Obs: map[string]int{"rejected_for_other_reason": 1}}
 	}
 	// Validate must fail too, and nothing may be evaluated
